@@ -32,7 +32,7 @@ Proof.
   - now rewrite op_in_spec, IH.
   - now rewrite op_range_spec, !IH.
   - rewrite op_for_spec, IH. unfold spec_for.
-    rewrite (for_list_ext _ (fun v k => spec e2 (subctx c v k)) _ (fun v k => spec e3 (subctx c v k))); [reflexivity| |]; intros; apply IH.
+    rewrite (for_list_ext _ _ (fun v k => spec e2 (subctx c v k)) _ (fun v k => spec e3 (subctx c v k))); [reflexivity| |]; intros; apply IH.
 Qed.
 
 Theorem check_sound e c : C17_check e c (model e c) = true.
@@ -200,38 +200,61 @@ Section Helpers2.
       + reflexivity.
   Qed.
 
+  (* @range where int64 overflow is impossible ([range_no_wrap]: stop + incr - 1 <= MaxInt64 for a positive
+     increment, MinInt64 <= stop + incr + 1 for a negative one): <VALUE> for a zero increment, a wrong
+     direction, or more than maxRangeElements elements; else the arithmetic progression *)
   Theorem T_range s e i start stop incr :
     atoi (eval s c) = Some start -> atoi (eval e c) = Some stop -> atoi (eval i c) = Some incr ->
+    range_no_wrap start stop incr = true ->
     eval (ARange s e i) c =
     if ((incr =? 0) || (incr >? 0) && (start >? stop) || (incr <? 0) && (start <? stop))%Z then ErrorValue
+    else if (range_countZ start stop incr >? MaxRangeElements)%Z then ErrorValue
     else join0 (map itoa (progression (range_count start stop incr) start incr)).
   Proof.
-    intros H1 H2 H3. cbn [eval]. rewrite op_range_spec. unfold spec_range. now rewrite H1, H2, H3.
+    intros H1 H2 H3 G. cbn [eval]. rewrite op_range_spec. unfold spec_range, spec_range_cap. now rewrite H1, H2, H3, G.
+  Qed.
+
+  (* @range in general: the value is what the (wrapping, capped) loop of the code yields; the loop always ends *)
+  Theorem T_range_any s e i start stop incr :
+    atoi (eval s c) = Some start -> atoi (eval e c) = Some stop -> atoi (eval i c) = Some incr ->
+    range_valid start stop incr ->
+    exists r, range_run MaxRangeElements start stop incr = Some r /\ eval (ARange s e i) c = r.
+  Proof.
+    intros H1 H2 H3 V. pose proof (range_fuel_enough MaxRangeElements start stop incr max_range_nonneg V) as Hf.
+    destruct (range_run MaxRangeElements start stop incr) as [r|] eqn:E; [|congruence].
+    exists r. split; [reflexivity|]. cbn [eval]. unfold op_range, op_range_cap. rewrite H1, H2, H3.
+    destruct V as (Vn & V1 & V2).
+    replace (incr =? 0)%Z with false by lia.
+    replace ((incr >? 0) && (start >? stop))%Z with false by lia.
+    replace ((incr <? 0) && (start <? stop))%Z with false by lia. now rewrite E.
   Qed.
 
   Theorem T_range_bad s e i :
     atoi (eval s c) = None \/ atoi (eval e c) = None \/ atoi (eval i c) = None ->
     eval (ARange s e i) c = ErrorNum.
   Proof.
-    intros H. cbn [eval]. rewrite op_range_spec. unfold spec_range.
+    intros H. cbn [eval]. rewrite op_range_spec. unfold spec_range, spec_range_cap.
     destruct (atoi (eval s c)); [|reflexivity]. destruct (atoi (eval e c)); [|reflexivity].
     destruct (atoi (eval i c)); [|reflexivity]. destruct H as [H|[H|H]]; discriminate.
   Qed.
 
   (* @for: v_0 = start, v_(k+1) = incr with {0} = v_k and {1} = k; elements are emitted while the
-     condition (same bindings) is truthy *)
+     condition (same bindings) is truthy, within MAX_ITERATIONS rounds and MAX_OUTPUT_BYTES of output *)
   Section ForThm.
     Variables s x i : expr.
     Let cond := fun v k => eval x (subctx c v k).
     Let incr := fun v k => eval i (subctx c v k).
+    Let vals := fun n => map (for_val incr (eval s c) dec_zero) (seq 0 n).
 
     Theorem T_for n : n <= iter_cap ->
       (forall k, k < n -> for_cond cond incr (eval s c) dec_zero k = true) ->
       for_cond cond incr (eval s c) dec_zero n = false ->
-      eval (AFor s x i) c = join0 (map (for_val incr (eval s c) dec_zero) (seq 0 n)).
+      (Z.of_nat (length (join0 (vals n))) <= ForMaxOutputBytes)%Z ->
+      eval (AFor s x i) c = join0 (vals n).
     Proof.
-      intros Hn Ht Hs. cbn [eval]. rewrite op_for_spec. unfold spec_for.
-      fold cond incr. rewrite (for_list_stops cond incr n); [reflexivity|lia|assumption|assumption].
+      intros Hn Ht Hs Hb. cbn [eval]. rewrite op_for_spec. unfold spec_for.
+      fold cond incr. rewrite (for_list_stops ForMaxOutputBytes cond incr n); [reflexivity|lia|assumption|assumption|].
+      rewrite for_len_joined. exact Hb.
     Qed.
 
     Theorem T_for_inf :
@@ -240,6 +263,16 @@ Section Helpers2.
     Proof.
       intros Ht. cbn [eval]. rewrite op_for_spec. unfold spec_for. fold cond incr.
       rewrite for_list_runs; [reflexivity|]. intros k Hk. apply Ht. lia.
+    Qed.
+
+    Theorem T_for_inf_bytes m :
+      (forall k, k <= m -> for_cond cond incr (eval s c) dec_zero k = true) ->
+      (Z.of_nat (length (join0 (vals (S m)))) > ForMaxOutputBytes)%Z ->
+      eval (AFor s x i) c = ForInfMarker.
+    Proof.
+      intros Ht Hb. cbn [eval]. rewrite op_for_spec. unfold spec_for. fold cond incr.
+      rewrite (for_list_bytes ForMaxOutputBytes cond incr m); [reflexivity|assumption|].
+      rewrite for_len_joined. exact Hb.
     Qed.
   End ForThm.
 
